@@ -11155,12 +11155,19 @@ class Main_Program0(BlockBase):
         table_name = "fparser2:main_program"
         SYMBOL_TABLES.enter_scope(table_name)
 
-        result = BlockBase.match(
-            None,
-            [Specification_Part, Execution_Part, Internal_Subprogram_Part],
-            End_Program_Stmt,
-            reader,
-        )
+        try:
+            result = BlockBase.match(
+                None,
+                [Specification_Part, Execution_Part, Internal_Subprogram_Part],
+                End_Program_Stmt,
+                reader,
+            )
+        except (FortranSyntaxError, InternalSyntaxError):
+            # The match failed part-way through so leave the scope and
+            # remove the symbol table that was created for it.
+            SYMBOL_TABLES.exit_scope()
+            SYMBOL_TABLES.remove(table_name)
+            raise
 
         SYMBOL_TABLES.exit_scope()
         if not result:
